@@ -446,9 +446,19 @@ class NP:
             aa, bb = rnp.asarray(a), rnp.asarray(b)
             if aa.dtype != object and bb.dtype != object:
                 return native(a, b, out=out, **kw) if out is not None else native(a, b, **kw)
-        r = rnp.frompyfunc(f, 2, 1)(a, b)
         if "where" in kw:
-            raise HarnessError("where= in binary ufunc")
+            # ufunc(a, b, out=o, where=w): computed where w holds, o left untouched elsewhere
+            w = kw["where"]
+            if out is None or has_sym_fast(w):
+                raise HarnessError("where= in binary ufunc without out= / with symbolic mask")
+            aa, bb, ww = rnp.broadcast_arrays(rnp.asarray(a, dtype=object), rnp.asarray(b, dtype=object), rnp.asarray(w, dtype=bool))
+            if out.dtype != object:
+                raise HarnessError("where= with a non-object out array")
+            for idx in rnp.ndindex(out.shape):
+                if ww[idx]:
+                    out[idx] = f(aa[idx], bb[idx])
+            return out
+        r = rnp.frompyfunc(f, 2, 1)(a, b)
         if out is not None:
             out[...] = r
             return out
@@ -550,6 +560,9 @@ class NP:
 
     def around(self, a, decimals=0, **kw):
         if has_sym_fast(a):
+            if isinstance(a, Sym) and decimals == 0:
+                # nearest integer as floor(x + 1/2) (ties: numpy rounds half to even; the tie set is not distinguished here)
+                return Sym(z3.ToReal(z3.ToInt(a.e + z3.RealVal("1/2"))))
             raise HarnessError("np.around of symbolic value")
         return rnp.around(a, decimals, **kw)
 
@@ -635,6 +648,7 @@ class _SPS:
 
     _UN = ["erf", "erfc", "erfinv", "gamma", "loggamma", "exp1"]
     _BIN = ["kv", "jv", "gammainc", "gammaincc", "expn", "beta"]
+    exact_gamma_half = False
 
     def __init__(self):
         import scipy.special as sps
@@ -661,6 +675,15 @@ class _SPS:
         ew = rnp.frompyfunc(one, nin, 1)
 
         def f(*xs, **kw):
+            if name == "gamma" and _SPS.exact_gamma_half and len(xs) == 1 and isinstance(xs[0], (int, float)) and not isinstance(xs[0], bool):
+                # reals reading of Gamma(n + 1/2) = (2n)! / (4^n n!) sqrt(pi)
+                x2 = 2 * float(xs[0])
+                if x2 == int(x2) and int(x2) % 2 == 1 and 0 < x2 < 40:
+                    n = (int(x2) - 1) // 2
+                    import fractions
+
+                    c = fractions.Fraction(math.factorial(2 * n), 4**n * math.factorial(n))
+                    return Sym(z3.RealVal(str(c)) * theory.UF["sqrt"](theory.PI))
             if not any(has_sym_fast(x) for x in xs):
                 return native(*xs, **kw)
             if all(not isinstance(x, rnp.ndarray) for x in xs):
